@@ -13,6 +13,8 @@ import TantivyModel.Proofs.DocSet.Construct
 import TantivyModel.Proofs.DocSet.IntersectionScore
 import TantivyModel.Proofs.DocSet.BitSet
 import TantivyModel.Proofs.DocSet.Tree
+import TantivyModel.Proofs.DocSet.BufferedUnionScore
+import TantivyModel.Proofs.DocSet.DisjunctionScore
 import TantivyModel.Model.DocSet.Tree
 /-!
 # C13 — every DocSet is one sorted sequence under any mix of advance and seek
@@ -481,6 +483,84 @@ theorem C13_intersection_score_path_independent (hA : Lawful A VA WA) (fx : Fix)
     ((Inter.ds A fx).score s1).1 = ((Inter.ds A fx).score s2).1 := by
   rw [Inter.score_value hA fx g hg hV1 h1, Inter.score_value hA fx g hg hV2 h2, hdoc, hghost]
 
+/-- **Score clause of the SUM buffered union.** Children: any lawful implementation whose `score()` is
+a function `g c` of the current document that the child's own moves do not change (`Inter.Ghost`).
+Build the union (`BufferedUnionScorer::build`, SumCombiner) and apply ANY legal mix of `advance` and
+`seek` (window refills, bucket-skipping in-horizon seeks that clear the dropped slots, far seeks that
+clear everything, at any horizon `H`): the union sits on the document the specification cursor sits
+on, and `score()` there is the sum of `g c d` over the children containing `d`.
+`fill_buffer` is excluded: for it the statement is false (C13_union_fill_buffer_*_counterexample). -/
+theorem C13_union_score_value (hA : Lawful A VA WA) (hscore : ∀ {c l}, VA c l → VA (A.score c).2 l)
+    (g : σ → Nat → Nat) (hG : Inter.Ghost A g) (hg : ∀ c, (A.score c).1 = g c (A.doc c))
+    (H : Nat) (hH : 64 ∣ H) (hH0 : 0 < H) (fx : Fix) (cs : List σ) (ls : List (List Nat)) (U : List Nat)
+    (hcs : All2 VA cs ls) (hU : SimpleUnion.IsUnion U ls) (ms : List BUnion.Move)
+    (hl : BUnion.legalMoves U ms) :
+    (BUnion.runMoves fx A H (BUnion.build A H true cs) ms).doc = Spec.doc (BUnion.specMoves U ms)
+      ∧ ((BUnion.runMoves fx A H (BUnion.build A H true cs) ms).doc < TERMINATED →
+          ((BUnion.ds A H fx).score (BUnion.runMoves fx A H (BUnion.build A H true cs) ms)).1
+            = BUnion.gsum g cs ls (BUnion.runMoves fx A H (BUnion.build A H true cs) ms).doc) :=
+  BUnion.score_after_moves hA hscore hG hg hH hH0 fx hcs hU ms hl
+
+/-- score path independence of the SUM buffered union: two legal call sequences of `advance` / `seek`
+that end on the same document end with the same score -/
+theorem C13_union_score_path_independent (hA : Lawful A VA WA)
+    (hscore : ∀ {c l}, VA c l → VA (A.score c).2 l)
+    (g : σ → Nat → Nat) (hG : Inter.Ghost A g) (hg : ∀ c, (A.score c).1 = g c (A.doc c))
+    (H : Nat) (hH : 64 ∣ H) (hH0 : 0 < H) (fx : Fix) (cs : List σ) (ls : List (List Nat)) (U : List Nat)
+    (hcs : All2 VA cs ls) (hU : SimpleUnion.IsUnion U ls) (ms1 ms2 : List BUnion.Move)
+    (hl1 : BUnion.legalMoves U ms1) (hl2 : BUnion.legalMoves U ms2)
+    (hsame : Spec.doc (BUnion.specMoves U ms1) = Spec.doc (BUnion.specMoves U ms2))
+    (hlt : Spec.doc (BUnion.specMoves U ms1) < TERMINATED) :
+    ((BUnion.ds A H fx).score (BUnion.runMoves fx A H (BUnion.build A H true cs) ms1)).1
+      = ((BUnion.ds A H fx).score (BUnion.runMoves fx A H (BUnion.build A H true cs) ms2)).1 := by
+  obtain ⟨a1, a2⟩ := BUnion.score_after_moves hA hscore hG hg hH hH0 fx hcs hU ms1 hl1
+  obtain ⟨b1, b2⟩ := BUnion.score_after_moves hA hscore hG hg hH hH0 fx hcs hU ms2 hl2
+  rw [a2 (by rw [a1]; exact hlt), b2 (by rw [b1, ← hsame]; exact hlt), a1, b1, hsame]
+
+/-- … at the extracted horizon -/
+theorem C13_union_score_path_independent_extracted (hA : Lawful A VA WA)
+    (hscore : ∀ {c l}, VA c l → VA (A.score c).2 l)
+    (g : σ → Nat → Nat) (hG : Inter.Ghost A g) (hg : ∀ c, (A.score c).1 = g c (A.doc c))
+    (fx : Fix) (cs : List σ) (ls : List (List Nat)) (U : List Nat)
+    (hcs : All2 VA cs ls) (hU : SimpleUnion.IsUnion U ls) (ms1 ms2 : List BUnion.Move)
+    (hl1 : BUnion.legalMoves U ms1) (hl2 : BUnion.legalMoves U ms2)
+    (hsame : Spec.doc (BUnion.specMoves U ms1) = Spec.doc (BUnion.specMoves U ms2))
+    (hlt : Spec.doc (BUnion.specMoves U ms1) < TERMINATED) :
+    ((BUnion.ds A Gen.UNION_HORIZON fx).score (BUnion.runMoves fx A Gen.UNION_HORIZON (BUnion.build A Gen.UNION_HORIZON true cs) ms1)).1
+      = ((BUnion.ds A Gen.UNION_HORIZON fx).score (BUnion.runMoves fx A Gen.UNION_HORIZON (BUnion.build A Gen.UNION_HORIZON true cs) ms2)).1 :=
+  C13_union_score_path_independent hA hscore g hG hg _ (by decide) (by decide) fx cs ls U hcs hU ms1 ms2 hl1 hl2 hsame hlt
+
+/-- **Score clause of Disjunction** (minimum-should-match, SumCombiner): built by `Disjunction::new`
+over lawful children whose score is a function of the document (`Inter.Ghost`), after ANY legal mix
+of `advance` and `seek` the disjunction sits on the specification cursor's document and `score()`
+there is the sum of the score functions of the children containing it (the running combiner is reset
+per candidate and updated once per popped scorer). -/
+theorem C13_disjunction_score_value (hA : Lawful A VA WA) (hscore : ∀ {c l}, VA c l → VA (A.score c).2 l)
+    (g : σ → Nat → Nat) (hG : Inter.Ghost A g) (hg : ∀ c, (A.score c).1 = g c (A.doc c))
+    (k : Nat) (hk : 1 ≤ k) (cs : List σ) (ls : List (List Nat)) (L : List Nat) (hcs : All2 VA cs ls)
+    (hL : Sorted L) (hmem : ∀ x, x ∈ L ↔ k ≤ Disj.cnt x ls) (ms : List Disj.Move)
+    (hl : Disj.legalMoves L ms) :
+    (Disj.runMoves A (Disj.new A true k cs) ms).currentDoc = Spec.doc (Disj.specMoves L ms)
+      ∧ ((Disj.runMoves A (Disj.new A true k cs) ms).currentDoc < TERMINATED →
+          ((Disj.ds A).score (Disj.runMoves A (Disj.new A true k cs) ms)).1
+            = Disj.gsum g cs ls (Disj.runMoves A (Disj.new A true k cs) ms).currentDoc) :=
+  Disj.score_after_moves hA hscore hG hg hk hcs hL hmem ms hl
+
+/-- score path independence of Disjunction -/
+theorem C13_disjunction_score_path_independent (hA : Lawful A VA WA)
+    (hscore : ∀ {c l}, VA c l → VA (A.score c).2 l)
+    (g : σ → Nat → Nat) (hG : Inter.Ghost A g) (hg : ∀ c, (A.score c).1 = g c (A.doc c))
+    (k : Nat) (hk : 1 ≤ k) (cs : List σ) (ls : List (List Nat)) (L : List Nat) (hcs : All2 VA cs ls)
+    (hL : Sorted L) (hmem : ∀ x, x ∈ L ↔ k ≤ Disj.cnt x ls) (ms1 ms2 : List Disj.Move)
+    (hl1 : Disj.legalMoves L ms1) (hl2 : Disj.legalMoves L ms2)
+    (hsame : Spec.doc (Disj.specMoves L ms1) = Spec.doc (Disj.specMoves L ms2))
+    (hlt : Spec.doc (Disj.specMoves L ms1) < TERMINATED) :
+    ((Disj.ds A).score (Disj.runMoves A (Disj.new A true k cs) ms1)).1
+      = ((Disj.ds A).score (Disj.runMoves A (Disj.new A true k cs) ms2)).1 := by
+  obtain ⟨a1, a2⟩ := Disj.score_after_moves hA hscore hG hg hk hcs hL hmem ms1 hl1
+  obtain ⟨b1, b2⟩ := Disj.score_after_moves hA hscore hG hg hk hcs hL hmem ms2 hl2
+  rw [a2 (by rw [a1]; exact hlt), b2 (by rw [b1, ← hsame]; exact hlt), a1, b1, hsame]
+
 end combinators
 
 /-! ### composition: whole scorer trees, as the driver builds and runs them -/
@@ -518,24 +598,14 @@ theorem C13_tree_score_keeps_state (fx : Fix) (n : Nat) :
 /-! ### open statements
 
 Proved above (no longer open): `Lawful` for Intersection (incl. the dense count), BufferedUnionScorer
-(every method), Disjunction, BitSetDocSet, and for every nesting of them (`C13_tree_lawful`).
+(every method), Disjunction, BitSetDocSet, and for every nesting of them (`C13_tree_lawful`); the score
+clause of the SUM buffered union and of Disjunction under any mix of advance / seek
+(`C13_union_score_value`, `C13_union_score_path_independent`, `C13_disjunction_score_*`) and of the
+intersection.
 
-OPEN — score clause of the SUM buffered union (the model is tied to the real code by the
-correspondence run and by the brute-force score oracle of the harness only):
-
-  theorem C13_union_score_path_independent : for programs without fill_buffer
-  --   (findings 1, 2: C13_union_fill_buffer_*_counterexample), score at d = Σ child scores at d.
-  -- plan (motivated by seeded C13-A / C12-A): children carry a ghost score function g_i with
-  -- (A.score c).1 = g_i (A.doc c), stable under advance/seek/score (`Inter.Ghost`);
-  -- G x := Σ_{i : x ∈ original list i} g_i x. Invariant to add to BUnion.V: scores[δ] = G (ws + δ) for
-  -- δ ∈ window, scores[δ] = 0 for every other δ < H, and s.score = G s.doc. `advance_buffered` reads
-  -- and clears the popped slot; `refill` starts from an all-zero array (window empty, no fill_buffer)
-  -- and every drained (child, x) adds g_i x to slot x - m; the in-horizon `seek` clears exactly the
-  -- slots of the buckets it drops (the line seeded C13-A removes), the far `seek` clears all.
-  -- The analogous statement for the intersection is proved: C13_intersection_score_path_independent.
-
-OPEN — the score of Disjunction (`current_score` = Σ of the matching children's scores) is modelled and
-run against the real code, not proved.
+OPEN — the score clause after `seek_danger` calls of the union (the danger-zone branch hands the
+children over unvalidated; the harness's brute-force score oracle covers it), and the DisjunctionMax
+combiner (oracle-only, not modelled).
 
 Model-level hypothesis kept: the children of an Intersection hold documents with
 doc + BLOCK_WINDOW ≤ TERMINATED (`Small`; needed by the block arithmetic of the dense count in the
@@ -680,6 +750,19 @@ example : Den 1 (.disj true 2 [.vec [1, 5] 1, .vec [5, 7] 1]) [5] := by
 example : (buildTree {} 2 (.excl (.disj true 2 [.vec [1, 5, 9] 1, .bits [5, 7, 9] 16 2, .vec [9, 11] 1]) [.vec [9] 1])).map
       (fun s => implRun (levelDS {} 2) s [.doc, .advance, .doc])
     = some (specRun ⟨[5], none⟩ [.doc, .advance, .doc]) := by decide +kernel
+example : BUnion.legalMoves [1, 5, 9] [.advance, .seek 9, .advance] :=
+  ⟨trivial, ⟨by decide, by decide⟩, trivial, trivial⟩
+example : let D := BUnion.ds Vec.ds 64
+    let s0 := BUnion.build Vec.ds 64 true [Vec.init (List.range 130) 2, Vec.init [65, 129] 5]
+    (D.score (BUnion.runMoves {} Vec.ds 64 s0 [.seek 65])).1 = 7
+      ∧ (D.score (BUnion.runMoves {} Vec.ds 64 s0 [.seek 3, .advance, .seek 64, .advance])).1 = 7
+      ∧ (BUnion.runMoves {} Vec.ds 64 s0 [.seek 3, .advance, .seek 64, .advance]).doc = 65 := by
+  decide +kernel
+example : Disj.legalMoves [5, 9] [.seek 6, .advance] := ⟨⟨by decide, by decide⟩, trivial, trivial⟩
+example : let s0 := Disj.new Vec.ds true 2 [Vec.init [1, 5, 9] 2, Vec.init [5, 7, 9] 3, Vec.init [9, 11] 4]
+    ((Disj.ds Vec.ds).score (Disj.runMoves Vec.ds s0 [.advance])).1 = 9
+      ∧ ((Disj.ds Vec.ds).score (Disj.runMoves Vec.ds s0 [.seek 6])).1 = 9
+      ∧ ((Disj.ds Vec.ds).score s0).1 = 5 := by decide +kernel
 example : Exclude.ok [[5, 7], [9]] 1 = true ∧ Exclude.ok [[5, 7], [9]] 9 = false := by decide
 example : Vec.V (Vec.init [1, 5, 9] 2) [1, 5, 9] := ⟨rfl, by
   refine ⟨by decide, ?_⟩
